@@ -596,9 +596,9 @@ def seed_table_failure(n):
 # ----------------------------------------------------------------------------------------------
 # case generation
 # ----------------------------------------------------------------------------------------------
-def dist_sweep():
-    for n in range(1, 13):
-        for W in range(1, 6):
+def dist_sweep(nmax=12, wmax=5):
+    for n in range(1, nmax + 1):
+        for W in range(1, wmax + 1):
             for dl in (False, True):
                 for R in (1, 2, 3, 4):
                     for shuffle in ((True, False) if R == 1 else (True,)):
@@ -620,12 +620,14 @@ def gen_layout(rng, C, n):
     return cl
 
 
-def gen_case(rng, kind):
+def gen_case(rng, kind, big=False):
+    """`big`: thorough-tier scope (sizes up to 24, world sizes up to 8)"""
     seed = rng.choice([0, 0, 1, 5, 42, 9243])
-    W = rng.choice([1, 2, 2, 3, 3, 4, 5])
+    W = rng.choice([1, 2, 2, 3, 3, 4, 5] + ([6, 7, 8] if big else []))
+    N = 24 if big else 12
     odd = rng.random() < 0.08       # out-of-domain / rejection corner: compared with the model, never judged
     if kind == "dist":
-        c = {"kind": "dist", "n": rng.randint(1, 12), "W": W, "shuffle": True, "seed": seed, "dl": rng.random() < 0.5,
+        c = {"kind": "dist", "n": rng.randint(1, N), "W": W, "shuffle": True, "seed": seed, "dl": rng.random() < 0.5,
              "R": rng.choice([1, 2, 2, 3, 4])}
         if c["R"] == 1:
             c["shuffle"] = rng.random() < 0.6
@@ -639,7 +641,7 @@ def gen_case(rng, kind):
                 c["ranks"] = [0, W, W + 1]
         return c
     if kind == "rand":
-        n = rng.randint(1, 12)
+        n = rng.randint(1, N)
         c = {"kind": "rand", "n": n, "replacement": rng.random() < 0.4, "num_samples": None, "user_gen": rng.random() < 0.5,
              "R": rng.choice([1, 2, 3, 4]), "seed": seed, "epochs": [0]}
         if rng.random() < 0.35:
@@ -649,9 +651,9 @@ def gen_case(rng, kind):
         return c
     if kind == "cb":
         C = rng.choice([2, 2, 3, 3, 4])
-        n = rng.randint(C, 12)
+        n = rng.randint(C, N)
         c = {"kind": "cb", "classes": gen_layout(rng, C, n), "n_classes": None, "shuffle": rng.random() < 0.75,
-             "spc": rng.choice([None, None, 1, 2, 3, 4, 5, 6, 7]), "seed": seed, "W": W, "fmt": rng.choice(["list", "list", "tensor", "numpy"])}
+             "spc": rng.choice([None, None, 1, 2, 3, 4, 5, 6, 7] + ([9, 12, 17] if big else [])), "seed": seed, "W": W, "fmt": rng.choice(["list", "list", "tensor", "numpy"])}
         if odd:
             z = rng.choice(["one-class", "gap", "spc0", "W0", "rank"])
             if z == "one-class":
@@ -666,7 +668,7 @@ def gen_case(rng, kind):
                 c["ranks"] = [None, W]
         return c
     if kind == "weighted":
-        n = rng.randint(1, 12)
+        n = rng.randint(1, N)
         size = rng.choice([None, None, rng.randint(1, n)])
         ws = [rng.choice([1, 1, 2, 3, 10]) for _ in range(n)]
         eff = n if size is None else size
@@ -684,7 +686,7 @@ def gen_case(rng, kind):
                 c["W"] = rng.choice([0, None])
         return c
     if kind == "semi":
-        n = rng.randint(2, 12)
+        n = rng.randint(2, N)
         nu = rng.randint(1, n - 1)
         C = rng.choice([1, 2, 3, 4])
         cl = [-1] * nu + [rng.randrange(C) for _ in range(n - nu)]
@@ -747,7 +749,7 @@ class SamplersCheck(PropertyCheck):
     driver_main = "mains/Samplers.lean"
     design_ref = "DESIGN.md 3 (C12/C13)"
     technique = "Lean 4 proof over hand model + differential correspondence"
-    n_random = {"quick": 300, "thorough": 4000}     # per kind
+    n_random = {"quick": 500, "thorough": 12000}     # per kind
 
     def cases(self):
         out = []
@@ -761,7 +763,7 @@ class SamplersCheck(PropertyCheck):
                     ncorp += 1
         sweep = []
         if "dist" in self.kinds:
-            sweep += list(dist_sweep())
+            sweep += list(dist_sweep() if self.tier == "quick" else dist_sweep(16, 8))
         if "rand" in self.kinds:
             sweep += list(rand_sweep())
         if self.tier == "quick":
@@ -772,7 +774,7 @@ class SamplersCheck(PropertyCheck):
         out += sweep
         for k in self.kinds:
             for i in range(self.n_random[self.tier]):
-                out.append(gen_case(self.rng, k))
+                out.append(gen_case(self.rng, k, big=(self.tier == "thorough" and i % 3 == 0)))
         return out, ncorp, len(sweep)
 
     def judge(self, case, real, res):
@@ -784,9 +786,9 @@ class SamplersCheck(PropertyCheck):
     def correspond(self):
         res = CorrResult()
         cases, ncorp, nsweep = self.cases()
-        res.rule = (f"{ncorp} corpus + {nsweep} sweep cases (DistributedSampler: every n<=12, W<=5, drop_last, num_repeats<=4, shuffle; RandomSampler: "
+        res.rule = (f"{ncorp} corpus + {nsweep} sweep cases (DistributedSampler: every n<=12, W<=5 (thorough: n<=16, W<=8), drop_last, num_repeats<=4, shuffle; RandomSampler: "
                     f"n<=12, num_repeats<=4, replacement, generator given or not) + {self.n_random[self.tier]} seeded random cases per sampler kind "
-                    f"{list(self.kinds)} (class layouts <=4 classes, samples_per_class None|1..7, L,U<=3, three length modes, size None|k, W<=5 incl. W>n, "
+                    f"{list(self.kinds)} (class layouts <=4 classes, samples_per_class None|1..7, L,U<=3, three length modes, size None|k, W<=5 incl. W>n; thorough: a third of the cases with sizes <=24, W<=8, "
                     "~8% rejection corners); every case = all ranks 0..W-1 as separate objects x epochs via set_epoch; torch draws recorded and replayed "
                     "into the model; distinct = (kind, sizes, branch, outcome)")
         res.exhaustive = True
